@@ -6,6 +6,7 @@ import io
 import json
 import logging
 import os
+import random
 import shutil
 import tempfile
 
@@ -55,8 +56,16 @@ RULE = ("case 'conv' = (generated DBC matrix with unique frame names, signal nam
         "ids 0, small and large, one to three signals each) and at most one plain frame, alone, with --ignorePduContainer (judged as "
         "--deleteFrame of the container frame) or with one frame-level option; judged against the multiplexed image of the container frame "
         "(container_image: Header_ID the multiplexer, Header_DLC, every signal of a contained PDU behind the header and multiplexed with the "
-        "header id of its PDU).")
-PARTIAL = ["compressFrame (C16) and signalNameFromAttrib are not modelled; the PDU-container rewrite has no function in the Lean model: its documented "
+        "header id of its PDU).  (histories) 3 % of the plain cases and 30 % of the cases of the other streams are observed after one or two "
+        "earlier conversions of the same stream in the same process and on the same file names (input file, merge files, output), whose "
+        "output is thrown away; the judged call must not depend on them.  (ECU definitions of a merged file) in 70 % of the merge cases the "
+        "first merged file defines an ECU attribute (with or without default, values on no, one or several ECUs; a quarter of the main files "
+        "define it too, with another default): whether the output defines it and the value the ECUs named by ecu= have there are observed "
+        "as the name of a last empty frame (ecu_definitions_expected).")
+PARTIAL = ["ECU attribute definitions after --merge: not judged when an ECU with a value only comes along with a merged frame, and the value of "
+           "a named ECU with a value of its own that the main file knows already is not judged (merge_ecu_value_note); frame and signal "
+           "level definitions of a merged file are those of the main file in the generated inputs",
+           "compressFrame (C16) and signalNameFromAttrib are not modelled; the PDU-container rewrite has no function in the Lean model: its documented "
            "result (container_image in harness/props/c18.py) is computed by the harness and handed to the judge as the input matrix; containers "
            "without header and contained PDUs without header id are not generated",
            "KCD input (several buses): only what KCD carries (no FD flag, no attributes, no zero-length signals, no multiplexed frames - the KCD "
@@ -142,7 +151,8 @@ def gen_matrix(rng):
     return {"ecus": ecus, "frames": frames}
 
 
-def build(m, ecu_attrs=None):
+def build(m, ecu_attrs=None, ecu_other=None):
+    """ecu_other: {"default": text or None, "values": [[ecu, text], ...]} - the file also defines the ECU attribute EcOther"""
     db = cm.CanMatrix()
     db.add_frame_defines("FrInt", "INT 0 100")
     db.add_frame_defines("FrStr", "STRING")
@@ -154,6 +164,13 @@ def build(m, ecu_attrs=None):
         db.add_ecu(cm.Ecu(e))
     for e, v in ecu_attrs or ():
         db.ecu_by_name(e).add_attribute("EcInt", v)
+    if ecu_other is not None:
+        db.add_ecu_defines(OTHER_ECU_ATTR, "INT 0 100")
+        if ecu_other["default"] is not None:
+            db.add_define_default(OTHER_ECU_ATTR, ecu_other["default"])
+        for e, v in ecu_other["values"]:
+            if db.ecu_by_name(e) is not None:
+                db.ecu_by_name(e).add_attribute(OTHER_ECU_ATTR, v)
     for f in m["frames"]:
         fr = cm.Frame(f["name"], arbitration_id=cm.ArbitrationId(f["id"], f["ext"]), size=f["size"], transmitters=list(f["tx"]), is_fd=f["fd"])
         for s in f["sigs"]:
@@ -480,6 +497,12 @@ def reduce_real(real):
             if any(e not in referenced for e in named):
                 return None                  # merge_ecu_listing_note
         o["frames"] = names
+        expected = ecu_definitions_expected(real) if real.get("ecu_defs") else None
+        if expected is not None:
+            # the ECU attribute definition of the merged file and the values of the named ECUs: a last frame without content
+            f = ecu_definitions_frame(*expected)
+            m = dict(m, frames=m["frames"] + [f])
+            o["frames"] = names + [f["name"]]
         return m, o
     if real["kind"] == "buses":
         return dict(real["buses"][real["pick"]][1], ecus=bus_ecus(real)), o
@@ -548,6 +571,96 @@ def definitions_expected(real):
 def definitions_observed(db):
     return {"frame": [d for d in db.frame_defines if d in USER_ATTRS], "signal": [d for d in db.signal_defines if d in USER_ATTRS],
             "ecu": [d for d in db.ecu_defines if d in ECU_ATTRS]}
+
+# ---------------------------------------------------------------------------------------------------------------------
+# --merge and the attribute definitions (real["ecu_defs"], drawn for most cases of the merge stream): `--merge other.dbc:ecu=X` is
+# copy.copy_ecu_with_frames, documented to "additionally copy all relevant Frames and Defines"; copy.copy_ecu: "additionally copy all
+# relevant Defines" - the ECU attribute definitions of the other file for which X has a value there (its own or the default of the
+# definition), whether or not the main matrix knows an ECU of that name already.  The first merged file defines the ECU attribute EcOther
+# (with or without default, values on some, one or no ECU); the main file defines it too in some cases (with another default).  Observed in
+# the output: whether EcOther is defined, and for every ECU an ecu= selector names the value it has there (own or default).  Judged:
+#   defined      - yes if the main file defines it or an ECU named by ecu= has a value in the other file; no if no ECU with a value is
+#                  named or referred to by a frame that is asked for; otherwise (an ECU with a value is only referred to by a merged frame:
+#                  copy_frame copies "relevant ECUs and Defines", which says nothing about an ECU the main matrix knows already or a
+#                  frame whose identifier is taken) not judged;
+#   value of X   - without a value of its own in the other file: the default there (what X "has" in that file), else the default of the
+#                  main file's definition, else none; with a value of its own: that value if the main file does not know X
+#                  (merge_ecu_value_note: if it does, add_ecu keeps the ECU of the main matrix and the value of the other file does not
+#                  arrive - not documented either way, not judged); not judged when an option edits the ECU list afterwards.
+# Both travel as the name of a last frame without content (ecu_definitions_frame), as the definitions of the stream "defines" do.
+# ---------------------------------------------------------------------------------------------------------------------
+OTHER_ECU_ATTR = "EcOther"
+EDITS_ECU_LIST = {"deleteEcu", "renameEcu", "deleteObsoleteEcus"}
+
+
+def ecu_definitions_frame(defined, values):
+    name = "ECU DEFINITIONS %s=%s values %s ." % (OTHER_ECU_ATTR, "yes" if defined else "no", " ".join("%s=%s" % (e, v) for e, v in values))
+    return {"name": name, "id": 0, "ext": False, "size": 0, "fd": False, "tx": [], "sigs": [], "attrs": []}
+
+
+def ecu_definitions_named(real):
+    """the ECUs of the first merged file that its ecu= selectors name (None: the file is not merged at all), and its selectors"""
+    om = real["others"][0]
+    sels = [sel for k, sel in real["merge"] if k == 0]
+    if not sels:
+        return None, None
+    sel = sels[0]
+    named = []
+    for it in (sel or []):
+        if is_ecu_sel(it):
+            named += [e for e in ecus_matching(om, it[1]) if e not in named]
+    return named, sel
+
+
+def ecu_definitions_expected(real):
+    """(defined, [[ecu, value], ...]) or None (not judged)"""
+    ed, om, o = real["ecu_defs"], real["others"][0], real["o"]
+    own = dict(ed["values"])
+
+    def val(e):
+        return own.get(e, ed["default"]) if e in om["ecus"] else None
+    named, sel = ecu_definitions_named(real)
+    if named is None:
+        return ed["main"] is not None, []
+    if ed["main"] is not None or any(val(e) is not None for e in named):
+        defined = True
+    else:
+        asked = frame_names(om) if sel is None else [it for it in sel if not is_ecu_sel(it)] + [n for e in named for n in ecu_frame_names(om, e)]
+        if any(val(e) is not None for f in om["frames"] if f["name"] in asked for e in refs_of(f)):
+            return None
+        defined = False
+    values = []
+    if not (set(o) & EDITS_ECU_LIST):
+        for e in named:
+            if e in own:
+                if e not in real["main"]["ecus"]:
+                    values.append([e, own[e]])                  # else merge_ecu_value_note
+            elif ed["default"] is not None:
+                values.append([e, ed["default"]])
+            else:
+                values.append([e, ed["main"] if ed["main"] is not None else "-"])
+    return defined, values
+
+
+def ecu_definitions_observed(real, db):
+    expected = ecu_definitions_expected(real)
+    values = []
+    for e, _ in expected[1]:
+        ecu = db.ecu_by_name(e)
+        v = None if ecu is None else ecu.attribute(OTHER_ECU_ATTR, db=db)
+        values.append([e, "absent" if ecu is None else ("-" if v is None else str(v))])
+    return OTHER_ECU_ATTR in db.ecu_defines, values
+
+
+def gen_ecu_defs(rng, real):
+    """the ECU attribute definition of the first merged file (and of the main file)"""
+    om = real["others"][0]
+    r = rng.random()
+    carriers = [] if r < 0.3 else ([rng.choice(om["ecus"])] if r < 0.6 else [e for e in om["ecus"] if rng.random() < 0.5])
+    return {"default": str(rng.randint(10, 19)) if rng.random() < 0.5 else None,
+            "values": [[e, str(rng.randint(20, 29))] for e in carriers],
+            "main": str(rng.randint(1, 9)) if "frames" not in real["o"] and rng.random() < 0.25 else None}
+
 
 # ---------------------------------------------------------------------------------------------------------------------
 # Input files that are no DBC files (kinds "buses" and "container"): the part of convert() that only runs for them.
@@ -825,22 +938,52 @@ def gen_signals(rng):
     return {"kind": "signals", "main": main, "signals": pats, "o": o}
 
 
+def gen_plain(rng):
+    m = gen_matrix(rng)
+    r = rng.random()
+    n = 0 if r < 0.05 else (1 if r < 0.5 else 2)
+    o = {}
+    for name in rng.sample(OPTIONS, n):
+        o[name] = gen_option(rng, m, name)
+    return {"op": "conv", "c": {"m": m, "o": o, "cli": rng.random() < 0.4}}
+
+
+# ---------------------------------------------------------------------------------------------------------------------
+# Histories (case["c"]["before"]): "for all input matrices, all options" is said about every call of the converter, not about the first
+# call of a process.  A case with "before" is observed as a history: the conversions listed there (complete cases of the same stream, with
+# their own input files, merge files, options and entry point) run first, in the same process and on the SAME file names (in.dbc,
+# other<k>.dbc, o/out.dbc - a tool that is run again after its input files were edited), their output is thrown away, then the judged
+# conversion runs on its own files.  The judge sees the judged call only: whatever an earlier call leaves behind (a cache keyed by a
+# path, a module-level table, an option that sticks) shows as a difference to the documented effect.  The driver ignores "before".
+# ---------------------------------------------------------------------------------------------------------------------
 def gen(rng, tier, shard, nshards):
+    # what was added to the streams later (histories, the ECU definitions of merged files) is drawn from a generator of its own, so the
+    # cases of the older streams stay what they were for a given VERIF_SEED
+    rng2 = random.Random("C18 additions %s" % (rng.getstate()[1][:8],))
     total = {"quick": 4000, "thorough": 40000}[tier] // nshards + 1
     for _ in range(total):
-        m = gen_matrix(rng)
-        r = rng.random()
-        n = 0 if r < 0.05 else (1 if r < 0.5 else 2)
-        o = {}
-        for name in rng.sample(OPTIONS, n):
-            o[name] = gen_option(rng, m, name)
-        yield {"op": "conv", "c": {"m": m, "o": o, "cli": rng.random() < 0.4}}
+        case = gen_plain(rng)
+        if rng2.random() < 0.03:
+            case["c"]["before"] = [gen_plain(rng2)["c"] for _ in range(rng2.choice([1, 1, 2]))]
+        yield case
     extra = {"quick": 400, "thorough": 4000}[tier] // nshards + 1
     for make in (gen_merge, gen_signals, gen_defines, gen_buses, gen_container):
         for _ in range(extra):
-            case = make_case(make(rng), rng.random() < 0.4)
-            if case is not None:
-                yield case
+            case = make_extra(rng, rng2, make)
+            if case is None:
+                continue
+            if rng2.random() < 0.3:
+                before = [make_extra(rng2, rng2, make) for _ in range(rng2.choice([1, 1, 2]))]
+                case["c"]["before"] = [b["c"] for b in before if b is not None]
+            yield case
+
+
+def make_extra(rng, rng2, make):
+    real = make(rng)
+    cli = rng.random() < 0.4
+    if real["kind"] == "merge" and rng2.random() < 0.7:
+        real["ecu_defs"] = gen_ecu_defs(rng2, real)
+    return make_case(real, cli)
 
 
 def cli_args(o):
@@ -885,9 +1028,8 @@ def real_call(c, d):
         items = []
         for k, sel in real["merge"]:
             path = os.path.join(d, "other%d.dbc" % k)
-            if not os.path.exists(path):
-                with open(path, "wb") as f:
-                    canmatrix.formats.dump(build(real["others"][k]), f, "dbc")
+            with open(path, "wb") as f:             # written anew for every call (a history uses the same names again)
+                canmatrix.formats.dump(build(real["others"][k], ecu_other=real["ecu_defs"] if k == 0 and real.get("ecu_defs") else None), f, "dbc")
             items.append(path + sel_text(sel))
         extra["merge"] = ",".join(items)
     elif real["kind"] == "defines":
@@ -906,6 +1048,17 @@ def observe(case):
     c = case["c"]
     d = tempfile.mkdtemp(prefix="c18_")
     try:
+        for earlier in c.get("before") or []:
+            # the history: earlier conversions in this process, on the same file names; what they wrote is thrown away
+            convert_once(earlier, d)
+            shutil.rmtree(os.path.join(d, "o"), ignore_errors=True)
+        return convert_once(c, d)
+    finally:
+        shutil.rmtree(d, ignore_errors=True)
+
+
+def convert_once(c, d):
+    if True:
         m_in, o_in, extra = real_call(c, d)
         real = c.get("real") or {}
         os.mkdir(os.path.join(d, "o"))
@@ -923,7 +1076,8 @@ def observe(case):
             files = ["out_Bus.dbc"]
             result = os.path.join(d, "o", files[0])
         else:
-            db = build(m_in, real.get("ecu_attrs"))
+            main_def = (real.get("ecu_defs") or {}).get("main")
+            db = build(m_in, real.get("ecu_attrs"), ecu_other={"default": main_def, "values": []} if main_def is not None else None)
             src = os.path.join(d, "in.dbc")
             with open(src, "wb") as f:
                 canmatrix.formats.dump(db, f, "dbc")
@@ -956,9 +1110,9 @@ def observe(case):
                 out = abstract(db2)
                 if real and definitions_judged(real):
                     out["frames"].append(definitions_frame(definitions_observed(db2)))
+                if real.get("ecu_defs") and ecu_definitions_expected(real) is not None:
+                    out["frames"].append(ecu_definitions_frame(*ecu_definitions_observed(real, db2)))
         return {"raised": raised, "out": out}
-    finally:
-        shutil.rmtree(d, ignore_errors=True)
 
 
 def project(impl):
@@ -1008,6 +1162,23 @@ def features(case, impl):
                 hit = [n for n in roles if fnmatch.fnmatchcase(n, p)]
                 if opt == "deleteSignal" and any(roles[n] == "multiplexer" for n in hit) and any(r == "multiplexed" and n not in hit for n, r in roles.items()):
                     yield "deleteSignal:list entry takes the multiplexer and leaves multiplexed signals"
+    if c.get("before"):
+        yield "history:earlier conversions in the process, same file names=%d" % len(c["before"])
+        if real and real["kind"] == "merge" and any((b.get("real") or {}).get("kind") == "merge" for b in c["before"]):
+            yield "history:merge file of an earlier conversion rewritten"
+    if real and real.get("ecu_defs"):
+        ed = real["ecu_defs"]
+        exp = ecu_definitions_expected(real)
+        yield "merge:ECU definition in the merged file, %s default, values on %s ECUs%s" % (
+            "with" if ed["default"] is not None else "without", len(ed["values"]) if len(ed["values"]) < 2 else "2+",
+            ", defined in the main file too" if ed["main"] is not None else "")
+        yield "merge:ECU definition %s" % ("not judged (an ECU with a value only comes with a frame)" if exp is None else
+                                           ("expected in the output" if exp[0] else "expected to be absent"))
+        if exp is not None:
+            yield "merge:ECU values judged=%s" % (len(exp[1]) if len(exp[1]) < 3 else "3+")
+            named, _ = ecu_definitions_named(real)
+            if exp[0] and ed["main"] is None and named and all(e in real["main"]["ecus"] for e in named):
+                yield "merge:ECU definition expected, every named ECU known to the main file"
     if real and real["kind"] == "merge":
         yield "opt:merge"
         yield "merge:files=%d" % len(real["merge"])
@@ -1093,6 +1264,13 @@ def less_of(m):
 def shrink_real(real):
     for k in real["o"]:
         yield dict(real, o={a: b for a, b in real["o"].items() if a != k})
+    if real.get("ecu_defs"):
+        ed = real["ecu_defs"]
+        yield {a: b for a, b in real.items() if a != "ecu_defs"}
+        for j in range(len(ed["values"])):
+            yield dict(real, ecu_defs=dict(ed, values=ed["values"][:j] + ed["values"][j + 1:]))
+        if ed["main"] is not None:
+            yield dict(real, ecu_defs=dict(ed, main=None))
     if real["kind"] == "merge":
         for i, (k, sel) in enumerate(real["merge"]):
             if len(real["merge"]) > 1:
@@ -1150,6 +1328,15 @@ def shrink_real(real):
 
 def shrink_candidates(case):
     c = case["c"]
+    before = c.get("before")
+    if before:
+        # a shorter history (none at all first), then the same steps as for a single call, with the history kept
+        for k in range(len(before)):
+            rest = before[:k] + before[k + 1:]
+            yield {"op": "conv", "c": dict({a: b for a, b in c.items() if a != "before"}, **({"before": rest} if rest else {}))}
+        for cand in shrink_candidates({"op": "conv", "c": {a: b for a, b in c.items() if a != "before"}}):
+            yield {"op": "conv", "c": dict(cand["c"], before=before)}
+        return
     if c.get("real"):
         for real in shrink_real(c["real"]):
             cand = make_case(real, c.get("cli"))
@@ -1173,12 +1360,19 @@ def shrink_candidates(case):
 
 def recipe(case):
     c = case["c"]
+    if c.get("before"):
+        return ("in ONE process and one directory, on the same file names: first " + "; then ".join(recipe({"c": b}) for b in c["before"]) +
+                "; the output is deleted; then, judged: " + recipe({"c": {a: b for a, b in c.items() if a != "before"}}) +
+                "   (replay: props.c18.observe(case))")
     real = c.get("real")
     if real and real["kind"] == "merge":
         arg = ",".join("other%d.dbc" % k + sel_text(sel) for k, sel in real["merge"])
         return ("canconvert " + " ".join(cli_args(real["o"]) + ["--merge=" + arg]) + " in.dbc out.dbc   (in.dbc = canmatrix.formats.dump("
                 "props.c18.build(case['c']['real']['main']), 'dbc'), other<k>.dbc likewise from case['c']['real']['others'][k]; expected: "
-                "canconvert " + " ".join(cli_args(c["o"])) + " on the file holding the frames of all of them)")
+                "canconvert " + " ".join(cli_args(c["o"])) + " on the file holding the frames of all of them" +
+                ("; other0.dbc also defines the ECU attribute EcOther as case['c']['real']['ecu_defs'] says (build(..., ecu_other=...)), 'main' there: "
+                 "the default of the same definition in in.dbc; the last frame of case['c']['m'], if it is called ECU DEFINITIONS ..., says "
+                 "whether the output must define EcOther and which value the ECUs named by ecu= must have" if real.get("ecu_defs") else "") + ")")
     if real and real["kind"] == "buses":
         return ("canconvert " + " ".join(cli_args(real["o"])) + " in.kcd out.dbc   (in.kcd = canmatrix.formats.dumpp({name: props.c18.build(m) "
                 "for name, m in case['c']['real']['buses']}, 'in.kcd'); expected: the files " + ", ".join(bus_files(real)) + "; judged: out_%s.dbc "
